@@ -19,6 +19,46 @@ pub mod rust_log_ref_finder
 {
     use super::*;
 
+    /// Nested block comments are followed recursively by the grammar, so the nesting depth of the
+    /// input is the recursion depth of the parser (a few hundred bytes of stack per level). Beyond
+    /// this depth - far more than any real code needs - a file is not parsed at all, rather than
+    /// risking a stack overflow.
+    const MAX_BLOCK_COMMENT_DEPTH: usize = 2000;
+
+    /// Returns true if "/*" is opened more than `limit` times without being closed anywhere in the
+    /// code. This is an upper bound for the depth of any nested block comment in it.
+    fn block_comment_depth_exceeds(code: &str, limit: usize) -> bool
+    {
+        let bytes = code.as_bytes();
+        let mut depth: usize = 0;
+        let mut i: usize = 0;
+
+        while i + 1 < bytes.len()
+        {
+            if bytes[i] == b'/' && bytes[i + 1] == b'*'
+            {
+                depth += 1;
+                i += 2;
+
+                if depth > limit
+                {
+                    return true;
+                }
+            }
+            else if bytes[i] == b'*' && bytes[i + 1] == b'/'
+            {
+                depth = depth.saturating_sub(1);
+                i += 2;
+            }
+            else
+            {
+                i += 1;
+            }
+        }
+
+        false
+    }
+
     fn macro_of_interest(macro_name: &String, config: &Config) -> bool
     {
         for config_macro in &config.rust.log_macros
@@ -65,6 +105,15 @@ pub mod rust_log_ref_finder
         }
 
         let mut result = Vec::new();
+
+        if block_comment_depth_exceeds(code, MAX_BLOCK_COMMENT_DEPTH)
+        {
+            log::warn!(
+                "[ref: 38] Block comments nested more than {} deep - skipping file",
+                MAX_BLOCK_COMMENT_DEPTH
+            );
+            return result;
+        }
 
         let mut outer_most_parsed_target = match RustParser::parse(Rule::file, code)
         {
